@@ -230,6 +230,20 @@ class Inventory:
             for blk, t in body.calls():
                 if blk.i not in cfg.live() or t.callee is None:
                     continue
+                # a modelled function handed over *by name* (`spawn_blocking(NamedTempFile::new)`, `.map(fs::remove_file)`) runs
+                # with arguments this call site does not show: a process-global temp file stays what it is; any other mutating
+                # operation is of unknown location
+                for a in t.args:
+                    if a.is_const and a.fn:
+                        fpath = norm_callee((a.fn.get("resolved") or {}).get("path") or a.fn.get("path") or "")
+                        for rx, kind, mut, roles in _MODEL_RE:
+                            if kind is not None and rx.search(fpath):
+                                if kind == "CreateTempGlobal" or mut or mut is None:
+                                    e2 = Effect("CreateTempGlobal" if kind == "CreateTempGlobal" else "Unmodelled", True, body, blk.i, t, {},
+                                                {"by_name": fpath})
+                                    self.effects.append(e2)
+                                    self.by_body.setdefault(body.path, []).append(e2)
+                                break
                 e = self._effect_of(body, blk, t)
                 if e is not None:
                     if self._is_async_fs(t) and not self._awaited(body, blk, t):
